@@ -28,7 +28,9 @@ inline std::enable_if_t<!std::is_unsigned<T>::value, T> diff(T const &a, T const
 template <typename T>
 inline std::enable_if_t<std::is_unsigned<T>::value, T> diff(T const &a, T const &b)
 {
-  return std::min(a - b, b - a);
+  // min(a - b, b - a) is wrong once the distance exceeds half the range of T
+  // (and for types narrower than int, where a - b does not wrap).
+  return static_cast<T>(a < b ? b - a : a - b);
 }
 
 }
